@@ -210,6 +210,62 @@ pub fn mirror(c: &SCase) -> (GCase, Cell, MethSpec) {
     (g, cell, c.meth.clone())
 }
 
+/// the same search object used twice with the graph's last edge connected in between
+pub fn run_reuse<F: Flavour>(prop: &str, g: &GCase, root: Key, cell: &Cell, st: &mut Stats, counting: bool) -> bool {
+    if let Cell::Search(c) = cell {
+        if c.term != Term::Path {
+            // search() / search_cycle() after a search_path() on the same object
+            let nodes = build::<F>(g);
+            let out = exec_after_path::<F>(&nodes, root, c);
+            if counting {
+                st.eval();
+                st.class("reuse.other-terminal-after-search_path-on-the-same-object");
+            }
+            let mut ok = true;
+            for t in judge(F::DIRECTED, g, root, cell, &MethSpec::None, &out) {
+                if t.fail.clause == "UNDECIDED" || !t.props.contains(&prop) {
+                    continue;
+                }
+                ok = false;
+                let clause = "reuse.answer-after-search_path-on-the-same-object-wrong";
+                st.report(Finding {
+                    property: prop.into(),
+                    flavour: F::NAME.into(),
+                    clause: clause.into(),
+                    signature: signature(F::NAME, cell, &MethSpec::None, clause),
+                    case: json!({"kind": "search-reuse", "flavour": F::NAME, "g": g, "root": root, "cell": cell, "note": "search_path() was called first on the same search object", "observed": {"found": out.found, "path": out.path}}),
+                    detail: format!("{}: {}", t.fail.clause, t.fail.detail),
+                });
+            }
+            return ok;
+        }
+    }
+    let Some((g0, a, b)) = exec_reuse::<F>(g, root, cell) else { return true };
+    if counting {
+        st.eval();
+        st.class("reuse.same-object-asked-twice-with-an-edge-added-in-between");
+    }
+    let mut ok = true;
+    for (which, gg, out) in [("first", &g0, &a), ("second", g, &b)] {
+        for t in judge(F::DIRECTED, gg, root, cell, &MethSpec::None, out) {
+            if t.fail.clause == "UNDECIDED" || !t.props.contains(&prop) {
+                continue;
+            }
+            ok = false;
+            let clause: &'static str = if which == "second" { "reuse.second-answer-of-the-same-object-wrong" } else { t.fail.clause };
+            st.report(Finding {
+                property: prop.into(),
+                flavour: F::NAME.into(),
+                clause: clause.into(),
+                signature: signature(F::NAME, cell, &MethSpec::None, clause),
+                case: json!({"kind": "search-reuse", "flavour": F::NAME, "g": g, "root": root, "cell": cell, "note": "search object created on g without its last edge, asked, last edge connected, asked again", "observed_first": {"path": a.path, "nodes": a.nodes, "edges": a.edges}, "observed_second": {"path": b.path, "nodes": b.nodes, "edges": b.edges}}),
+                detail: format!("{} call: {}: {}", which, t.fail.clause, t.fail.detail),
+            });
+        }
+    }
+    ok
+}
+
 /// (root, target, method) combinations for one graph, one flavour family.
 struct Combos {
     roots: Vec<Key>,
@@ -266,6 +322,9 @@ fn exhaustive_graph<F: Flavour>(prop: &str, g: &GCase, st: &mut Stats, all_subse
                 for m in &combos.meths {
                     let c = SCase { g: g.clone(), root, cell: cell.clone(), meth: m.clone() };
                     run_case_on::<F>(prop, &nodes, &c, st, true);
+                }
+                if prop != "C07" && prop != "C08" {
+                    run_reuse::<F>(prop, g, root, &cell, st, true);
                 }
             }
         }
@@ -350,6 +409,64 @@ pub fn two_path_family(max_edges: usize, mut f: impl FnMut(&GCase)) {
                 }
             }
         }
+    }
+}
+
+/// Large constructed graphs: thresholds inside the implementation (inline
+/// buffers, capacity growth, recursion depth) are invisible on small graphs.
+/// Sizes straddle powers of two; shapes: ring with a chord, path with skip
+/// edges, bidirectional grid, hub with back edges, long chain into a cycle.
+pub fn big_family(sizes: &[usize], mut f: impl FnMut(&GCase, Key, Key)) {
+    for &n in sizes {
+        let mut id = 100u32;
+        let mut mk = |pairs: Vec<(usize, usize)>| -> Vec<Tri> {
+            pairs
+                .into_iter()
+                .map(|(u, v)| {
+                    id += 1;
+                    (u as Key, v as Key, id)
+                })
+                .collect()
+        };
+        let prio = |n: usize| -> Vec<i32> { (0..n).map(|i| ((i * 7) % 5) as i32).collect() };
+        // ring + chord back into the middle + parallel edge near the end
+        let mut ring: Vec<(usize, usize)> = (0..n).map(|i| (i, (i + 1) % n)).collect();
+        ring.push((n - 1, n / 2));
+        ring.push((n - 2, n - 1));
+        f(&GCase { n, prio: prio(n), edges: mk(ring) }, 0, (n - 1) as Key);
+        // path with skip edges i -> i+2 and a late back edge
+        let mut path: Vec<(usize, usize)> = (0..n - 1).map(|i| (i, i + 1)).collect();
+        path.extend((0..n - 2).map(|i| (i, i + 2)));
+        path.push((n - 1, n - 3));
+        f(&GCase { n, prio: prio(n), edges: mk(path) }, 0, (n - 1) as Key);
+        // k x k grid, edges in both directions
+        let k = (n as f64).sqrt() as usize;
+        if k >= 3 {
+            let mut g: Vec<(usize, usize)> = vec![];
+            for r in 0..k {
+                for c in 0..k {
+                    if c + 1 < k {
+                        g.push((r * k + c, r * k + c + 1));
+                        g.push((r * k + c + 1, r * k + c));
+                    }
+                    if r + 1 < k {
+                        g.push((r * k + c, (r + 1) * k + c));
+                        g.push(((r + 1) * k + c, r * k + c));
+                    }
+                }
+            }
+            f(&GCase { n: k * k, prio: prio(k * k), edges: mk(g) }, 0, (k * k - 1) as Key);
+        }
+        // hub: 0 -> everybody, everybody -> 0, plus a chain among the spokes
+        let mut hub: Vec<(usize, usize)> = (1..n).map(|i| (0, i)).collect();
+        hub.extend((1..n).map(|i| (i, 0)));
+        hub.extend((1..n - 1).map(|i| (i, i + 1)));
+        f(&GCase { n, prio: prio(n), edges: mk(hub) }, 0, (n - 1) as Key);
+        // long tail into a small cycle with a self-loop
+        let mut tail: Vec<(usize, usize)> = (0..n - 1).map(|i| (i, i + 1)).collect();
+        tail.push((n - 1, n - 4));
+        tail.push((n - 2, n - 2));
+        f(&GCase { n, prio: prio(n), edges: mk(tail) }, 0, (n - 2) as Key);
     }
 }
 
@@ -473,6 +590,9 @@ pub fn run_raw(prop: &str, raw: &RawG, st: &mut Stats, counting: bool) -> bool {
                             ok = false;
                         }
                     }
+                    if prop != "C07" && prop != "C08" && !run_reuse::<$F>(prop, &g, root, &cell, st, counting) {
+                        ok = false;
+                    }
                 }
             }
         }};
@@ -487,6 +607,28 @@ pub fn run_raw(prop: &str, raw: &RawG, st: &mut Stats, counting: bool) -> bool {
 }
 
 pub fn replay(prop: &str, v: &Value, st: &mut Stats) -> Result<(), String> {
+    if v["kind"] == "search-reuse" {
+        let g: GCase = serde_json::from_value(v["g"].clone()).map_err(|e| e.to_string())?;
+        let cell: Cell = serde_json::from_value(v["cell"].clone()).map_err(|e| e.to_string())?;
+        let root = v["root"].as_u64().unwrap_or(0) as Key;
+        if g.prio.len() != g.n || root as usize >= g.n || g.edges.iter().any(|e| e.0 as usize >= g.n || e.1 as usize >= g.n) {
+            return Err("malformed graph case".into());
+        }
+        let only = v["flavour"].as_str();
+        macro_rules! go {
+            ($F:ty) => {
+                if only.map_or(true, |o| o == <$F>::NAME) && (<$F>::DIRECTED || !cell.transposed()) {
+                    run_reuse::<$F>(prop, &g, root, &cell, st, true);
+                }
+            };
+        }
+        go!(Di);
+        go!(SDi);
+        go!(Un);
+        go!(SUn);
+        st.sample(|| json!({"replayed_reuse": {"g": g, "root": root, "cell": cell}}));
+        return Ok(());
+    }
     let c: SCase = serde_json::from_value(json!({"g": v["g"], "root": v["root"], "cell": v["cell"], "meth": v["meth"]})).map_err(|e| e.to_string())?;
     if c.g.prio.len() != c.g.n || c.g.edges.iter().any(|e| e.0 as usize >= c.g.n || e.1 as usize >= c.g.n) || c.root as usize >= c.g.n {
         return Err("malformed graph case".into());
@@ -700,6 +842,57 @@ pub fn run(prop: &'static str, ctx: &mut Ctx) {
     let enum_failed = enumerated.has_findings();
     ctx.stats.merge(enumerated);
     ctx.exhaustive = Some(!enum_failed);
+    // (b2) large constructed graphs
+    let sizes: Vec<usize> = tier.pick(vec![9, 17, 33, 65, 130], vec![9, 17, 33, 65, 129, 130, 260, 520]);
+    let mut bigs: Vec<(GCase, Key, Key)> = vec![];
+    big_family(&sizes, |g, r, t| bigs.push((g.clone(), r, t)));
+    let big = parallel(workers.min(bigs.len().max(1)), |w| {
+        let mut st = Stats::new();
+        for (i, (g, r, t)) in bigs.iter().enumerate() {
+            if i % workers.min(bigs.len().max(1)) != w {
+                continue;
+            }
+            wd.tick();
+            st.class("graphs.large-constructed");
+            if i == 1 {
+                st.sample_kind("large", 1, || json!({"large_graph": {"n": g.n, "edges": g.edges.len(), "first_edges": &g.edges[..6], "root": r, "target": t}}));
+            }
+            macro_rules! fl {
+                ($F:ty) => {{
+                    let nodes = build::<$F>(g);
+                    for cell in cells_for(prop, <$F>::DIRECTED) {
+                        let (root, target) = if cell.transposed() { (*t, *r) } else { (*r, *t) };
+                        let cell = with_target(&cell, Some(target));
+                        // filters: nothing rejected / every third edge rejected
+                        let view = g.view(<$F>::DIRECTED, cell.transposed());
+                        let mut rej = BTreeSet::new();
+                        let mut k = 0;
+                        for s in 0..view.n {
+                            for &(tt, e) in &view.inc[s] {
+                                k += 1;
+                                if k % 3 == 0 {
+                                    rej.insert((s as Key, tt, e));
+                                }
+                            }
+                        }
+                        for m in [MethSpec::None, MethSpec::ForEach, MethSpec::Filter(BTreeSet::new()), MethSpec::Filter(rej)] {
+                            let c = SCase { g: g.clone(), root, cell: cell.clone(), meth: m };
+                            run_case_on::<$F>(prop, &nodes, &c, &mut st, true);
+                        }
+                    }
+                }};
+            }
+            fl!(Di);
+            fl!(SDi);
+            if prop != "C08" {
+                fl!(Un);
+                fl!(SUn);
+            }
+        }
+        st
+    });
+    ctx.stats.merge(big);
+    ctx.stats.extra.insert("large_constructed_sizes".into(), json!(sizes));
     ctx.stats.extra.insert("enumeration_bounds".into(), json!(bounds.iter().map(|b| json!({"nodes": b.0, "max_edges": b.1, "graphs": (0..=b.1).map(|m| count_graphs(b.0, m)).sum::<u64>()})).collect::<Vec<_>>()));
     // (c) random with shrinking
     let rworkers = tier.pick(8usize, 16usize);
